@@ -37,6 +37,7 @@ type Plan struct {
 	Faults     []Fault  `json:"faults,omitempty"`
 	Inject     []Inject `json:"inject,omitempty"` // adversarial wire messages at timed instants
 	HealAtMs   int      `json:"healAtMs,omitempty"`
+	PrefixViews int     `json:"prefixViews,omitempty"` // C05: the synchronous phase starts no later than this view
 	Sync       []int    `json:"syncQuorum,omitempty"` // C05: members of the synchronous quorum after HealAtMs
 	UntilMs    int      `json:"untilMs"`
 	MaxViews   int      `json:"maxViews"`
@@ -475,6 +476,10 @@ func (p *Plan) genLiveness(g *gen, healAt int, faultFree bool) {
 	}
 	p.MaxSteps = 400000
 	p.MaxViews = 0
+	p.PrefixViews = g.rng(8, 60)
+	if faultFree {
+		p.MaxViews = g.rng(20, 60)
+	}
 }
 
 // quorumOf is the oracle's own quorum size: the smallest q with 2q-n >= f+1, f = max{f: 3f < n}.
